@@ -157,6 +157,18 @@ void run(const Case& c) {
         cv[tid].wait(lk, [&] { return turn == (int)tid || turn == -1; });
         if (turn == -1)
           break;
+        // ---- the ring protocol circulates exactly one token (hook, GALOIS_VERIF): checked before and after every step
+        auto tokens_ok = [&](const char* when) {
+#ifdef GALOIS_VERIF
+          if (auto* ring = dynamic_cast<galois::substrate::internal::LocalTerminationDetection<>*>(term)) {
+            unsigned held = ring->verifTokensHeld();
+            if (held != 1)
+              fail_later("token-count", "round %d, %u threads, %s step %zu (thread %u): %u threads hold the token, the ring protocol has exactly one", r, n, when, pos,
+                         tid, held);
+          }
+#endif
+        };
+        tokens_ok("before");
         // ---- one step of the executor loop of thread tid
         if (!left[tid]) {
           if (checked_empty[tid]) {
@@ -196,6 +208,7 @@ void run(const Case& c) {
           } else
             checked_empty[tid] = true; // the empty pop
         }
+        tokens_ok("after");
         // ---- next step
         ++pos;
         bool all_left = true;
